@@ -39,6 +39,9 @@ CHECKS = {
  'C10': ('Hypothesis-generated zero sets, measurement histories (warm start on/off, solver per call) vs a dead-cell predicate derived from the declared zeros; all-subsets query sweep + synthetic data',
          'Generated-input search: after the last call of a 1-3 call history every project() answer on every attribute subset, the data vector and synthetic records (round/sample) are checked against the set of cells that the declared zeros make impossible; finite/non-negative/sums-to-total asserted.',
          'Threshold 1e-60*total instead of exact 0 (Factor.log adds 1e-100 by design). F14 instances are a listed known finding (signature tracked over the whole call history).'),
+ 'C13': ('Hypothesis RuleBasedStateMachine over sequences of estimate calls on one estimator: differential against a fresh estimator, snapshot comparison of earlier models, deep-copy comparison of caller inputs, certified-optimum check for warm start',
+         'Stateful generated search: hundreds of call histories (varying measurement sets, totals, solvers, callbacks) per run; history-freeness is decided by exact comparison with a fresh estimator on every attribute subset, immutability by bit-identical snapshots, warm-start convergence by the C03 certificate.',
+         'Fresh-vs-history tolerance 1e-9*total (runs are bit-identical on the pinned tree). Warm-start optimum clause runs on 1/6 of the warm histories, skipped when structural zeros are present (covered by C10).'),
 }
 NOT_YET = 'check not built yet (work in progress in this session); see DESIGN.md for the planned check'
 
